@@ -48,6 +48,8 @@ type Monitor struct {
 	ProposerMismatch []Violation
 	// VoteHook, if set, sees every vote a correct node emits (after the built-in checks).
 	VoteHook func(n *Node, v *types.Vote)
+	// LockRecordCheck: after a non-nil precommit the node's RoundState must record the lock at that round.
+	LockRecordCheck bool
 	// HeldCheck enables the held-block monitor (held.go).
 	HeldCheck     bool
 	proposalBytes map[string][]byte
@@ -235,6 +237,22 @@ func (m *Monitor) onOwnVote(n *Node, v *types.Vote) {
 	if v.Type == types.VoteTypePrecommit {
 		if key != "nil" {
 			m.count("precommits_nonnil", 1)
+			// lock record: a non-nil precommit at round r IS the lock on that block at round r (first lock and
+			// relock alike); the round recorded with the lock is what later decides which polkas may unlock it.
+			// Read while the node is still at that height (its own precommit may have completed a commit).
+			if rs := n.CS.GetRoundState(); rs.Height == v.Height && m.LockRecordCheck {
+				m.count("lock_records_checked", 1)
+				if rs.LockedRound > 0 || v.Round > 0 {
+					m.count("lock_records_checked_round_gt0", 1)
+				}
+				if rs.LockedBlock == nil || !rs.LockedBlock.HashesTo(v.BlockID.Hash.Bytes()) || rs.LockedRound != v.Round {
+					lb := "nil"
+					if rs.LockedBlock != nil {
+						lb = fmt.Sprintf("%x", rs.LockedBlock.Hash().Bytes()[:6])
+					}
+					m.violate("discipline/lock-not-recorded-at-precommit-round", "node v%d precommitted %s at %d/%d but its lock record says block %s round %d", n.ID, key[:6], v.Height, v.Round, lb, rs.LockedRound)
+				}
+			}
 			t := m.tally(n.ID, hrt{v.Height, v.Round, types.VoteTypePrevote}, key)
 			if 3*t <= 2*total {
 				m.violate("discipline/precommit-without-polka", "node v%d precommitted %s at %d/%d with only %d of %d power of prevotes for it delivered", n.ID, key[:6], v.Height, v.Round, t, total)
